@@ -28,7 +28,7 @@ func init() {
 				n = 16000
 			}
 			return fw.Meta{N: n, Level: "exploration", Chunk: 10, CaseTimeoutS: 300, MinNT: 150,
-				Rule:        "one case = one generated table (0..300 strictly ascending keys from families fixed-width/random/shared-prefix/marker-laden/short-with-empty-key/4-byte/20-byte, optionally a 1-4 KiB last key that dominates the index; values nil/empty/up to 2 KiB incl. marker-laden, occasionally 4..7 KiB and 32..41 KiB) written by the stream writer or the skip-list writer under data x index compression (4x4), bloom sizing {default, 1, 1e6, fp 0.5}, write buffers {16,37,4096,default}; opened with every applicable index loader (slice, skip list, disk; map only when all keys are exactly 4 or 20 bytes) and read buffers {16,37,4096,default}; Contains/Get on every key and its neighbours (prefix, extension, +-1), \"\", below min, above max; full Scan; ScanStartingAt and ScanRange on probe samples incl. lo==hi, bounds between keys, both below min / above max and lo>hi (must be rejected). evaluations = (table, loader) pairs; non-trivial = >=2 keys; distinct by content hash + loader",
+				Rule:        "one case = one generated table (0..300 strictly ascending keys from families fixed-width/random/shared-prefix/marker-laden/short-with-empty-key/4-byte/20-byte, optionally a 1-4 KiB last key that dominates the index; values nil/empty/up to 2 KiB incl. marker-laden, occasionally 4..7 KiB and 32..41 KiB) written by the stream writer or the skip-list writer under data x index compression (4x4), bloom sizing {default, 1, 1e6, fp 0.5}, write buffers {16,37,4096,default}; opened with every applicable index loader (slice, skip list, disk; map only when all keys are exactly 4 or 20 bytes) and read buffers {16,37,4096,default}; Contains/Get on every key and its neighbours (prefix, extension, +-1), \"\", below min, above max; full Scan; ScanStartingAt and ScanRange on probe samples incl. lo==hi, bounds between keys, both below min / above max and lo>hi (must be rejected); half of the evaluations pass all probe keys and bounds through reused buffers that are refilled for the next call. evaluations = (table, loader) pairs; non-trivial = >=2 keys; distinct by content hash + loader",
 				MinObs:      map[string]int64{"get_contains_probes": 50000, "range_scans_checked": 5000, "loader_disk": 100, "loader_slice": 100, "loader_skiplist": 100, "loader_map": 20, "lo_gt_hi_rejected": 200, "written_keys_found": 10000, "dominating_last_key_tables": 20},
 				Assumptions: []string{"map loader only within its documented domain (fixed 4/20-byte keys, probes of the same length)"},
 			}
@@ -267,9 +267,31 @@ func c03Probe(c *fw.Case, rd sstables.SSTableReaderI, kvs []kv, model map[string
 	lowerBound := func(p []byte) int {
 		return sort.Search(len(kvs), func(i int) bool { return bytes.Compare(kvs[i].k, p) >= 0 })
 	}
+	// half of the evaluations hand every probe key and bound over in reused buffers that are refilled for the next call
+	// (and overwritten once the call, or the iterator it returned, is finished): a reader must not remember its caller's slices
+	reuse := r.Intn(2) == 0
+	if reuse {
+		c.Obs("evaluations_probing_through_reused_key_buffers", 1)
+	}
+	bufA, bufB := make([]byte, 0, 64), make([]byte, 0, 64)
+	arg := func(buf *[]byte, p []byte) []byte {
+		if !reuse || len(p) == 0 {
+			return p
+		}
+		*buf = append((*buf)[:0], p...)
+		return *buf
+	}
+	scribble := func() {
+		for i := range bufA[:cap(bufA)] {
+			bufA[:cap(bufA)][i] = 0xEE
+		}
+		for i := range bufB[:cap(bufB)] {
+			bufB[:cap(bufB)][i] = 0xEE
+		}
+	}
 	for _, p := range probes {
 		idx, ok := model[string(p)]
-		got, err := rd.Contains(p)
+		got, err := rd.Contains(arg(&bufA, p))
 		c.Obs("get_contains_probes", 1)
 		if err != nil {
 			c.Violate("sstable/contains-error"+feat, "%s: Contains(%s): %v", cfg, fw.Hex(p), err)
@@ -283,7 +305,10 @@ func c03Probe(c *fw.Case, rd sstables.SSTableReaderI, kvs []kv, model map[string
 			c.Violate(sig+feat, "%s: Contains(%s)=%v want %v", cfg, fw.Hex(p), got, ok)
 			return
 		}
-		v, err := rd.Get(p)
+		v, err := rd.Get(arg(&bufA, p))
+		if r.Intn(4) == 0 {
+			scribble()
+		}
 		if ok {
 			if err != nil {
 				sig := "sstable/get-error"
@@ -325,7 +350,7 @@ func c03Probe(c *fw.Case, rd sstables.SSTableReaderI, kvs []kv, model map[string
 	}
 	for i := 0; i < 25; i++ {
 		p := probes[r.Intn(len(probes))]
-		it, err := rd.ScanStartingAt(p)
+		it, err := rd.ScanStartingAt(arg(&bufA, p))
 		if err != nil {
 			c.Violate("sstable/scan-starting-at-error"+feat, "%s: ScanStartingAt(%s): %v", cfg, fw.Hex(p), err)
 			return
@@ -335,6 +360,7 @@ func c03Probe(c *fw.Case, rd sstables.SSTableReaderI, kvs []kv, model map[string
 			c.Violate("sstable/scan-starting-at-iter-error"+feat, "%s: ScanStartingAt(%s): %v", cfg, fw.Hex(p), err)
 			return
 		}
+		scribble()
 		if d := sameKVs(got, kvs[lowerBound(p):]); d != "" {
 			c.Violate("sstable/scan-starting-at-mismatch"+feat, "%s: ScanStartingAt(%s): %s", cfg, fw.Hex(p), d)
 			return
@@ -354,7 +380,7 @@ func c03Probe(c *fw.Case, rd sstables.SSTableReaderI, kvs []kv, model map[string
 		case 3:
 			lo, hi = probes[0], probes[len(probes)-1]
 		}
-		it, err := rd.ScanRange(lo, hi)
+		it, err := rd.ScanRange(arg(&bufA, lo), arg(&bufB, hi))
 		if bytes.Compare(lo, hi) > 0 {
 			if err == nil {
 				c.Violate("sstable/scan-range-lo-gt-hi-accepted"+feat, "%s: ScanRange(%s,%s) with lower>upper was not rejected", cfg, fw.Hex(lo), fw.Hex(hi))
@@ -372,6 +398,7 @@ func c03Probe(c *fw.Case, rd sstables.SSTableReaderI, kvs []kv, model map[string
 			c.Violate("sstable/scan-range-iter-error"+feat, "%s: ScanRange(%s,%s): %v", cfg, fw.Hex(lo), fw.Hex(hi), err)
 			return
 		}
+		scribble()
 		a := lowerBound(lo)
 		b := sort.Search(len(kvs), func(i int) bool { return bytes.Compare(kvs[i].k, hi) > 0 })
 		var want []kv
